@@ -30,7 +30,7 @@ EXPLANATION = (
     'makeMove/makeMoveB/makeSEEMove on a position that outlives the call (member or reference parameter; 8 named advancing '
     'functions excepted) every non-exceptional path to the exit or to the next make passes the matching unmake with the same move and undo record.'
     ' (8) the en-passant mask tables hold, for each file, exactly the neighbouring squares on the capturing rank (finite evaluation over the 8 files) and makeMove records an en-passant square only under that mask test; (4, 5 widths) every UndoInfo field and every packed field of the compact form is as wide as the Position attribute it holds unless a stated value range is narrower; (9) every fresh en-passant store is followed by fixupEPSquare (the normal form readFEN produces). Three genuine violations of the property on the pinned tree are recorded as known findings (8-bit clock and 16-bit move number in the compact form; makeMove records an en-passant square whose capture is illegal).'
-    ' Added later; (10) the attribute assignment inside every one-argument setter of Position has exactly the parameter on its right-hand side.')
+    ' Added later; (10) the attribute assignment inside every one-argument setter of Position has exactly the parameter on its right-hand side. (11) makeSEEMove / unMakeSEEMove remove and restore the same en-passant victim for every mover piece.')
 UNDECIDED = ('equality of hash keys of rule-equal positions as values, bit-identity after arbitrary histories, FEN round trip of '
              'counters (value-level).')
 ASSUMPTIONS = ['material domain: <= 16 men per side, pawns + promoted officers <= 8 per side (the property\'s domain)',
@@ -80,6 +80,7 @@ def run(fb, rep, tier):
     c8_ep_square(fb, rep)
     c9_ep_normal_form(fb, rep)
     c10_setter_identity(fb, rep)
+    c11_see_pair(fb, rep)
 
 
 # ----------------------------------------------------------------------------- .1
@@ -930,3 +931,193 @@ def c10_setter_identity(fb, rep):
             rep.ob(clause, 'K10 setter identity', '%s stores its argument unchanged in %s' % (name, ap(tgt)[5:]), isinstance(v, dict) and v.get('k') == 'var' and v.get('id') == pid,
                    R.site(f, e), 'stored: %s' % show(val, 80), f.sname)
     rep.floor(clause, 'attribute stores in one-argument setters of Position', n, 4)
+
+
+# ----------------------------------------------------------------------------- .11
+
+def c11_see_pair(fb, rep):
+    """K1 sibling agreement of the light-weight move pair used by the static exchange evaluation.  makeSEEMove removes the pawn
+    captured en passant, unMakeSEEMove puts it back; the take-back restores the board only if, for every mover piece, side to
+    move and outcome of the remaining (opaque) tests, both act on the same squares, the removal writes EMPTY and the
+    restoration writes the enemy pawn - and only a pawn ever triggers either.  The guards and the square expressions of both
+    functions are evaluated for all 12 mover pieces (with the side to move of their colour) x every valuation of the opaque comparisons
+    (`move.to() == epSquare`), so the form of the conditions (nesting, else-if, ?:) does not matter.  A removal that is not
+    mirrored deletes a pawn from the board for the rest of the history while hash keys and material still count it."""
+    clause = 'C02.11'
+    mk = fb.find1(P + '::makeSEEMove')
+    um = fb.find1(P + '::unMakeSEEMove')
+    if rep.need(clause, mk, 'Position::makeSEEMove') is None or rep.need(clause, um, 'Position::unMakeSEEMove') is None:
+        return
+    WP, BP, empty = fb.const('Piece::WPAWN'), fb.const('Piece::BPAWN'), fb.const('Piece::EMPTY')
+    npt = fb.const('Piece::nPieceTypes')
+    if rep.need(clause, None if None in (WP, BP, empty, npt) else 1, 'Piece constants') is None:
+        return
+    from ..core import canonical
+    from itertools import product
+
+    class Opaque(Exception):
+        pass
+
+    def sk(t):
+        while isinstance(t, dict) and (t.get('k') in ('cast', 'paren') or (t.get('k') == 'ctor' and t.get('copy') and len(t.get('args', [])) == 1)):
+            t = t.get('e') if t.get('k') != 'ctor' else t['args'][0]
+        return t
+
+    def is_flip(e):
+        return e.get('k') == 'asg' and ap(e.get('l')) == 'this.whiteMove'
+
+    def model(f, is_unmake):
+        movers = set(_local_ids(f, lambda t: any(n.get('k') == 'call' and cname(n) == P + '::getPiece' for n in walk(t))))
+        atoms = []
+        inits, assigned = {}, set()
+        for _, _, e_ in f.events():
+            if e_.get('k') == 'decl':
+                for v in e_.get('vars', []):
+                    if v.get('init') is not None:
+                        inits[v['id']] = v['init']
+            for n in walk(e_):
+                if isinstance(n, dict) and n.get('k') in ('asg', 'incdec'):
+                    tg = sk(n.get('l') if n.get('k') == 'asg' else n.get('e'))
+                    if isinstance(tg, dict) and tg.get('k') == 'var':
+                        assigned.add(tg.get('id'))
+
+        def ev(t, env, depth=0):
+            t = sk(t)
+            if not isinstance(t, dict) or depth > 40:
+                raise Opaque()
+            if 'cv' in t:
+                return t['cv']
+            k = t.get('k')
+            if k == 'var' and t.get('id') in movers:
+                return env['p']
+            if k == 'var' and t.get('vk') == 'local' and t.get('id') in inits and t['id'] not in assigned:
+                # a local that only names an expression (its operands - the mover, the move, the side to move before
+                # the flip - are not changed between its declaration and the en-passant handling: checked by `flipped`)
+                if any(isinstance(n, dict) and n.get('k') == 'mem' and ap(n) == 'this.whiteMove' for n in walk(inits[t['id']])):
+                    raise Opaque()      # would need the flip count at the declaration, not at the use
+                return ev(inits[t['id']], env, depth + 1)
+            if k == 'mem' and ap(t) == 'this.whiteMove':
+                return env['w']
+            if k == 'un' and t.get('op') == '!':
+                return not ev(t['e'], env, depth + 1)
+            if k == 'un' and t.get('op') == '-':
+                v = ev(t['e'], env, depth + 1)
+                if isinstance(v, tuple):
+                    raise Opaque()
+                return -v
+            if k == 'cond':
+                return ev(t['a'], env, depth + 1) if ev(t['c'], env, depth + 1) else ev(t['b'], env, depth + 1)
+            op = t.get('op')
+            ops = None
+            if k == 'bin':
+                ops = (t['l'], t['r'])
+            elif k == 'call' and op in ('+', '-', '==', '!=') and len(t.get('args', [])) + (1 if t.get('recv') else 0) == 2:
+                ops = tuple(([t['recv']] if t.get('recv') else []) + list(t['args']))
+            if ops is not None and op in ('&&', '||'):
+                a = ev(ops[0], env, depth + 1)
+                if op == '&&':
+                    return bool(a) and bool(ev(ops[1], env, depth + 1))
+                return bool(a) or bool(ev(ops[1], env, depth + 1))
+            if ops is not None and op in ('==', '!=', '<', '<=', '>', '>='):
+                try:
+                    a, b = ev(ops[0], env, depth + 1), ev(ops[1], env, depth + 1)
+                    if isinstance(a, tuple) or isinstance(b, tuple):
+                        if isinstance(a, tuple) and isinstance(b, tuple) and a[0] == b[0]:
+                            a, b = a[1], b[1]
+                        else:
+                            raise Opaque()
+                    return {'==': a == b, '!=': a != b, '<': a < b, '<=': a <= b, '>': a > b, '>=': a >= b}[op]
+                except Opaque:
+                    with canonical(f):
+                        key = show(t, 160)
+                    if op == '!=':
+                        raise Opaque()
+                    if key not in atoms:
+                        atoms.append(key)
+                    return env['atoms'].get(key, False)
+            if ops is not None and op in ('+', '-'):
+                a, b = ev(ops[0], env, depth + 1), ev(ops[1], env, depth + 1)
+                if isinstance(b, tuple) and op == '+' and not isinstance(a, tuple):
+                    a, b = b, a
+                if isinstance(b, tuple):
+                    raise Opaque()
+                if isinstance(a, tuple):
+                    return (a[0], a[1] + (b if op == '+' else -b))
+                return a + b if op == '+' else a - b
+            if k in ('call', 'mem', 'var'):
+                with canonical(f):
+                    return (show(t, 160), 0)     # an opaque base value: base + offset
+            raise Opaque()
+
+        sites = []
+        for b, i, e in f.events():
+            if not (e.get('k') == 'call' and cname(e) == P + '::setSEEPiece' and len(e.get('args', [])) == 2):
+                continue
+            flipped = f.path_avoiding((f.entry, -1), lambda x, e=e: x is e, is_flip) is None
+            sites.append((e, G.guard_trees(f, set(f.blocks), b), flipped))
+
+        def effects(p, w_entry_of_make, val):
+            out = set()
+            for e, gs, flipped in sites:
+                w_entry = (not w_entry_of_make) if is_unmake else w_entry_of_make
+                env = {'p': p, 'w': (not w_entry) if flipped else w_entry, 'atoms': val}
+                def truth(c):
+                    v = ev(c, env)
+                    if isinstance(v, tuple):
+                        raise Opaque()
+                    return bool(v)
+                if all(truth(c) == side for c, side in gs):
+                    sq = ev(e['args'][0], env)
+                    try:
+                        pc = ev(e['args'][1], env)
+                    except Opaque:
+                        pc = '?'
+                    if isinstance(pc, tuple):
+                        pc = '?'
+                    out.add((sq, pc))
+            return out
+        return sites, atoms, effects
+
+    try:
+        s_mk, at_mk, eff_mk = model(mk, False)
+        s_um, at_um, eff_um = model(um, True)
+        rep.floor(clause, 'setSEEPiece calls in makeSEEMove', len(s_mk), 3)
+        rep.floor(clause, 'setSEEPiece calls in unMakeSEEMove', len(s_um), 3)
+        # first pass collects the opaque comparisons
+        for p_ in range(npt):
+            for w in (True, False):
+                eff_mk(p_, w, {})
+                eff_um(p_, w, {})
+        atoms = sorted(set(at_mk) | set(at_um))
+        if len(atoms) > 6:
+            rep.broken(clause, 'too many opaque comparisons in the SEE move pair: %s' % atoms)
+            return
+        base = None
+        n_states, bad, n_ep = 0, [], 0
+        for p_ in range(npt):
+            if p_ == empty:
+                continue        # a move always moves a piece
+            for w in (p_ < fb.const('Piece::BKING'),):
+                for bits in product((False, True), repeat=len(atoms)):
+                    val = dict(zip(atoms, bits))
+                    a, b_ = eff_mk(p_, w, val), eff_um(p_, w, val)
+                    n_states += 1
+                    # the plain from / to squares of the move: offset 0; everything else is the en-passant victim
+                    xa = {(sq, pc) for sq, pc in a if not (isinstance(sq, tuple) and sq[1] == 0)}
+                    xb = {(sq, pc) for sq, pc in b_ if not (isinstance(sq, tuple) and sq[1] == 0)}
+                    if xa or xb:
+                        n_ep += 1
+                    enemy = BP if p_ == WP else WP if p_ == BP else None
+                    ok = {sq for sq, _ in xa} == {sq for sq, _ in xb} and all(pc == empty for _, pc in xa) and all(pc == enemy for _, pc in xb) and \
+                        ((not xa) or p_ in (WP, BP)) and len(xa) <= 1
+                    if ok and xa:
+                        (sq, _), = xa
+                        ok = isinstance(sq, tuple) and sq[1] == (-8 if p_ == WP else 8)
+                    if not ok:
+                        bad.append('mover %d, white to move %s, %s: removes %s, restores %s' % (p_, w, {k_: v for k_, v in val.items()}, sorted(xa, key=str), sorted(xb, key=str)))
+    except Opaque:
+        rep.broken(clause, 'the SEE move pair is no longer evaluable (a guard or square expression outside the modelled forms)')
+        return
+    rep.floor(clause, 'states of the SEE move pair in which an en-passant victim is removed', n_ep, 2)
+    rep.ob(clause, 'K1 pairing', 'makeSEEMove / unMakeSEEMove: in every state the en-passant victim removed is exactly the one restored (square behind the destination, enemy pawn, pawn movers only)',
+           not bad, mk.where, '%d states (12 mover pieces with their side to move x %d opaque comparison(s) %s); %s' % (n_states, len(atoms), atoms, bad[:3] if bad else 'all agree'), mk.sname)
